@@ -51,6 +51,8 @@ def build(inp: Dict[str, Any], shape_of: Optional[Dict[int, Tuple[str, List[int]
                 tag, shape, depth = "weight", [4, 4], 0
             data = torch.full(shape, 1.0 + 0.01 * p["id"], dtype=torch.float64)
             q = Parameter(data, tag, depth or None) if p["tagged"] else nn.Parameter(data)
+            if p["id"] % 3 == 2:
+                q.requires_grad_(False)   # every third parameter is frozen when the groups are built: the property speaks of every parameter
             params[p["id"]] = q
             ps.append(q)
         d: Dict[str, Any] = {"params": ps}
